@@ -100,6 +100,7 @@ class Harness:
                         sent = yield (term[1], pending) if pending else term[1]
                         H.emit_log(f"R {self.now.nanoseconds} {pid} {fmt_val(sent)} {tag}")
                     elif term[0] == "W":
+                        H.trace.append(f"w {pid} {term[1]} {1 if event.daemon else 0}")
                         sent = yield H.fut(term[1])
                         H.emit_log(f"R {self.now.nanoseconds} {pid} {fmt_val(sent)} 0")
                     else:
@@ -154,12 +155,16 @@ class Harness:
                     p[0].cancel()
                     self.trace.append(f"x {p[1]}")
             elif op == "R":
+                self.trace.append(f"r {a[1]} {a[2]}")
                 self.fut(a[1]).resolve(a[2])
             elif op == "A":
+                self.trace.append("a " + " ".join(str(x) for x in a[1:]))
                 self.futs[a[1]] = self.any_of(*[self.fut(g) for g in a[2:]])
             elif op == "L":
+                self.trace.append("l " + " ".join(str(x) for x in a[1:]))
                 self.futs[a[1]] = self.all_of(*[self.fut(g) for g in a[2:]])
             elif op == "N":
+                self.trace.append(f"n {a[1]}")
                 self.futs[a[1]] = self.SimFuture()
             elif op == "C":
                 self.ents[a[1]]._crashed = True
